@@ -37,12 +37,24 @@ fn main() {
             for k in 0..count {
                 let idx = from + k;
                 let s = runstream::gen_sched(master, idx, &profile);
-                let o = runstream::run_schedule(&s);
+                let (o, actions) = runstream::run_schedule_ex(&s, None);
                 let sh = (k % shards) as usize;
                 let name = format!("o{}", idx);
                 write!(vfiles[sh], "{}", runstream::obs_to_coq(&o, &name)).unwrap();
                 writeln!(vfiles[sh], "Eval vm_compute in (judge_run {}).", name).unwrap();
-                jsons[sh].push(runstream::obs_to_json(&o));
+                let mut js = runstream::obs_to_json(&o);
+                if profile == "twin" {
+                    // same actions again (same process), and the same completion order with different spacing
+                    let (o2, _) = runstream::run_schedule_ex(&s, Some((&actions, false)));
+                    let (o3, _) = runstream::run_schedule_ex(&s, Some((&actions, true)));
+                    write!(vfiles[sh], "{}", runstream::obs_to_coq(&o2, &format!("o{}b", idx))).unwrap();
+                    write!(vfiles[sh], "{}", runstream::obs_to_coq(&o3, &format!("o{}c", idx))).unwrap();
+                    writeln!(vfiles[sh], "Eval vm_compute in (judge_twin {} {}b {}c).", name, name, name).unwrap();
+                    js["twin_events_same_spacing"] = serde_json::json!(o2.events.iter().map(runstream::ev_to_coq).collect::<Vec<_>>());
+                    js["twin_events_merged"] = serde_json::json!(o3.events.iter().map(runstream::ev_to_coq).collect::<Vec<_>>());
+                    js["twin_values"] = serde_json::json!([o2.strings, o3.strings]);
+                }
+                jsons[sh].push(js);
             }
             for sh in 0..shards as usize {
                 fs::write(
